@@ -217,6 +217,9 @@ MALFORMED = {
     # no '---': junk right after a document that a flow collection / quoted / block scalar has really terminated
     'parser-junk-after-terminated-document': '[junk, after]\n',
     'parser-junk-scalar-after-terminated-document': '"junk"\n',
+    # stray text on the line of the '...' marker itself: the marker ends the document before it, the text is the (malformed) next one
+    'parser-text-after-document-end-marker': '... three\n',
+    'parser-flow-after-document-end-marker': '...\t[5, 6]\n',
     'reader-nonprintable': '---\nkey: va\x01lue\n',
     'reader-bad-utf8': '---\nkey: va\udcfflue\n',     # U+DCFF is replaced by the raw byte FF when encoded (bytes forms only)
 }
@@ -246,6 +249,8 @@ def generate(seed, tier):
             case['huge'] = True
         if case['via'] == 'io' and form != 'text' and r.random() < 0.4:
             case['via'] = 'rawio'        # an unbuffered binary file object (io.RawIOBase): nobody may put a big buffer in front of it
+        elif case['via'] == 'io' and form != 'text' and r.random() < 0.4:
+            case['via'] = r.choice(['file', 'file', 'file-unbuffered'])     # a genuine file on disk (it has a fileno() and a size)
         if case['via'] == 'io' and r.random() < 0.6 and len(parts) >= 2:
             # a document whose '---' line is itself longer than two refill blocks: whoever refills by physical
             # lines (readline, iteration over the file) takes all of it before the previous document is delivered
@@ -271,6 +276,8 @@ def generate(seed, tier):
         if bad.endswith('-no-end'):
             # the document before the directive must not swallow the '%' line: end it with a flow / quoted node
             parts.append({'kind': 'doc', 'text': '--- ' + r.choice(['[a, b]', '{a: b}', '"quoted"', "'single'"]) + '\n'})
+        if bad.endswith('-after-document-end-marker') and parts and parts[-1]['kind'] == 'gap':
+            parts.pop()
         if bad.startswith('parser-junk'):
             # the document before the junk must end in a token that terminates it for good
             parts.append({'kind': 'doc', 'text': '--- ' + r.choice(['[a, b]', '{a: b}', '"quoted"', "'single'", '|\n  literal\n  text', '&x [1]'])
@@ -432,6 +439,7 @@ def execute(case):
     mode = case['mode']
     sig_extra = None
     logparts = []
+    tempfiles = []
 
     if mode == 'bound':
         try:
@@ -459,7 +467,32 @@ def execute(case):
             stream = CountingRaw(data)
             consumed = lambda: stream.pos
             out['probes']['bound_runs_through_raw_io_objects'] = 1
-        elif case.get('via') in ('io', 'rawio'):
+        elif case.get('via') in ('file', 'file-unbuffered') and not isinstance(data, str):
+            import os
+            import tempfile
+            fd, path = tempfile.mkstemp(prefix='verif-c18-', suffix='.yaml')
+            with os.fdopen(fd, 'wb') as f:
+                f.write(data)
+            stream = open(path, 'rb', buffering=0) if case['via'] == 'file-unbuffered' else open(path, 'rb', buffering=4096)
+            os.unlink(path)
+            tempfiles.append(stream)
+
+            class Counting:
+                # the file object itself, with read() counted (everything else - fileno(), name, mode, seek ... - is forwarded)
+                def __init__(self, f):
+                    self._f, self.pos = f, 0
+
+                def read(self, n=-1):
+                    piece = self._f.read(n)
+                    self.pos += len(piece)
+                    return piece
+
+                def __getattr__(self, name):
+                    return getattr(self._f, name)
+            stream = Counting(stream)
+            consumed = lambda: stream.pos
+            out['probes']['bound_runs_through_files_on_disk'] = 1
+        elif case.get('via') in ('io', 'rawio', 'file', 'file-unbuffered'):
             import io
             stream = io.StringIO(data) if isinstance(data, str) else io.BytesIO(data)
             consumed = stream.tell
@@ -641,6 +674,11 @@ def execute(case):
                 gc.enable()
             gc.collect()
 
+    for f in tempfiles:
+        try:
+            f.close()
+        except OSError:
+            pass
     readlog = [(e[3], e[4]) for e in log]
     ndocs = sum(1 for p in case['parts'] if p['kind'] == 'doc')
     if ndocs >= 2 or len(data) >= 2 * blk:
